@@ -109,8 +109,21 @@ func c01Judge(w *mon.W, c c01Case) {
 	if res.N1 != n1 || res.N2 != n2 || res.AltHypothesis != alt {
 		w.Violate("fields", fmt.Sprintf("N1,N2,Alt=%d,%d,%v want %d,%d,%v", res.N1, res.N2, res.AltHypothesis, n1, n2, alt), c)
 	}
+	// P has no stated tolerance. Allowed: 1e-9 relative to the exact value
+	// plus 1e-12 absolute — the rounding noise of a float64 probability
+	// formed as 1-(sum of the other tail) from counts that carry ~1e-13
+	// relative error (the unchanged library's tied upper tail is off by up to
+	// 3e-14 that way). An absolute 1e-9 would leave every p-value below 1e-9
+	// unjudged, and the exact test exists to report those.
 	d := math.Abs(res.P - want)
-	if !w.Err("P-exact", d, 1e-9) {
+	tolP := 1e-9*want + 1e-12
+	w.HitIf(want > 0 && want < 1e-9, "P-exact<1e-9")
+	w.HitIf(want > 4e-12 && want < 1e-9, "P-exact-in-(4e-12,1e-9)")
+	oname := "P-exact"
+	if want < 1e-9 {
+		oname = "P-exact(tiny)"
+	}
+	if !w.Err(oname, d, tolP) {
 		msg := fmt.Sprintf("alt=%v P=%.12g, exact conditional probability is %.12g (U=%v n1=%d n2=%d T=%v)", alt, res.P, want, float64(twoU)/2, n1, n2, T)
 		if alt == stats.LocationDiffers && ties && math.Abs(res.P-d3Signature(tab, twoU)) <= 1e-12 {
 			w.Known("D3", "P-two-sided-ties", msg, c)
@@ -127,7 +140,7 @@ func c01Run(r *mon.Run) {
 	r.Rule("exhaustive: every tie vector T (composition of N into >=2 parts) x every allocation of tied values to the two samples x 3 alternatives for N<=10 (thorough 13), values = ranks pushed through a random strictly increasing map, samples shuffled; random: (T,allocation) shapes up to the exact limits. A case is non-trivial if it hits any class (K=2, mass at U-1/2, non-palindromic T, U1==U2, extreme U, limit sizes...); distinct by hash of (x1,x2,alt).")
 	r.Assume("reference distribution: subset enumeration (N<=14) / 128-bit generating-function DP, cross-checked at start-up for N<=9",
 		"MannWhitneyExactLimit/MannWhitneyTiesExactLimit at their current values define the exact domain")
-	r.Gate("K=2", "mass-at-U-half", "non-palindromic-T", "U1==U2", "U-extreme", "n-at-untied-limit", "n-at-tied-limit", "tied", "untied")
+	r.Gate("K=2", "mass-at-U-half", "non-palindromic-T", "U1==U2", "U-extreme", "n-at-untied-limit", "n-at-tied-limit", "tied", "untied", "P-exact<1e-9", "P-exact-in-(4e-12,1e-9)", "far-tail")
 	if err := ref.USelfTest(r.Pick(8, 9)); err != nil {
 		r.Inconclusive("reference self-test failed: " + err.Error())
 		return
@@ -153,6 +166,56 @@ func c01Run(r *mon.Run) {
 				c01Judge(w, c01Case{x1, x2, int(alt)})
 			}
 		})
+	})
+
+	// far tails: one sample (almost) entirely above the other, then a few
+	// random exchanges of neighbouring items, so that U sits 4..12 standard
+	// deviations from its mean without being the extreme value
+	r.Parallel("far-tail", r.Pick(300, 3000), func(w *mon.W, i int) {
+		rng := w.Rng
+		T, a := randomTieAlloc(rng, i)
+		N := sumInts(T)
+		n1 := sumInts(a)
+		if n1 < 4 || N-n1 < 4 {
+			return
+		}
+		// item list in ascending order of value: group index per item
+		var grp []int
+		for k, t := range T {
+			for j := 0; j < t; j++ {
+				grp = append(grp, k)
+			}
+		}
+		in1 := make([]bool, N) // top n1 items (or bottom) go to sample 1
+		top := rng.Intn(2) == 0
+		for k := 0; k < n1; k++ {
+			if top {
+				in1[N-1-k] = true
+			} else {
+				in1[k] = true
+			}
+		}
+		for ex := rng.Intn(1 + min(n1, N-n1)/3); ex > 0; ex-- {
+			// exchange one item near the boundary between the two blocks
+			b := n1
+			if top {
+				b = N - n1
+			}
+			p, q := b-1-rng.Intn(min(b, 4)), b+rng.Intn(min(N-b, 4))
+			in1[p], in1[q] = in1[q], in1[p]
+		}
+		a = make([]int, len(T))
+		for k := range grp {
+			if in1[k] {
+				a[grp[k]]++
+			}
+		}
+		w.Hit("far-tail")
+		vals := incValues(rng, len(T))
+		x1, x2 := samplesFromAlloc(rng, T, a, vals)
+		for _, alt := range alts {
+			c01Judge(w, c01Case{x1, x2, int(alt)})
+		}
 	})
 
 	nr := r.Pick(400, 4000)
